@@ -57,6 +57,12 @@ pub fn gen(tier: &str, seed: u64, emit: &mut dyn FnMut(String)) {
         match rng.below(5) { 0 => { let n = rng.range(1, 3) as usize; let t = rng.bytes(n); b.extend(t); } 1 => { let k = rng.below(b.len() as u64 + 1) as usize; b.truncate(k); } _ => {} }
         emit(format!("DSC {}", hex(&b)));
     }
+    // Descriptor::from_bytes called directly on a slice that continues behind its first (complete) descriptor
+    for _ in 0..(if big { 40000 } else { 3000 }) {
+        let mut b = crate::suites::c16::rand_desc(&mut rng);
+        let more = rng.range(1, 12) as usize; let t = rng.bytes(more); b.extend(t);
+        emit(format!("DSC1 {}", hex(&b)));
+    }
     // random loops
     for _ in 0..(if big { 200000 } else { 20000 }) {
         let mut b = vec![];
